@@ -287,6 +287,8 @@ def canon(o):
         return ["m", [[canon(k), canon(v)] for k, v in o.items()]]
     if isinstance(o, list):
         return ["l", [canon(x) for x in o]]
+    if type(o).__name__ == "TaggedScalar":       # never generated; lets the pinned reproducers below be replayed
+        return ["tagged", str(getattr(getattr(o, "tag", None), "value", None)), str(o.value)]
     raise HarnessError("canon: object of type %s is outside the generated domain" % type(o).__name__)
 
 
@@ -451,6 +453,21 @@ def _has_special(c):
 
 
 def check_pair(case):
+    """case["bs"] = several independent edits of the same play case["a"]"""
+    if "bs" not in case:
+        return _check_pair1(case)
+    labels, keys, nt = [], [], False
+    for variant in case["bs"]:
+        one = dict((k, v) for k, v in case.items() if k != "bs")
+        one.update(variant)
+        r = _check_pair1(one)
+        labels += r["labels"]
+        nt = nt or r["nontrivial"]
+        keys.append(r.get("key"))
+    return {"nontrivial": nt, "labels": labels, "key": keys}
+
+
+def _check_pair1(case):
     """digest injectivity / invariance for one pair of plays (case["b"] may be absent: exclusion model only)"""
     pv = _pv()
     raw = bool(case.get("raw"))
@@ -943,13 +960,16 @@ def _structural(draw, kind, conts, slots, setslot):
 def _digest_case(draw):
     tree, excluded = draw(_play())
     mode = draw(st.sampled_from(["py", "py", "yaml"]))
-    kind = draw(st.sampled_from(EDITS))
-    region = draw(st.sampled_from(["any", "any", "any", "excluded"]))
-    if kind == "none":
-        b = copy.deepcopy(tree)
-    else:
-        b = _apply_edit(draw, tree, kind, excluded if region == "excluded" else None)
-    return {"mode": mode, "a": tree, "b": b, "edit": kind, "region": region}
+    bs = []
+    for _ in range(3):      # three independent single edits of the same play (amortises generating the play)
+        kind = draw(st.sampled_from(EDITS))
+        region = draw(st.sampled_from(["any", "any", "any", "excluded"]))
+        if kind == "none":
+            b = copy.deepcopy(tree)
+        else:
+            b = _apply_edit(draw, tree, kind, excluded if region == "excluded" else None)
+        bs.append({"b": b, "edit": kind, "region": region})
+    return {"mode": mode, "a": tree, "bs": bs}
 
 
 def strat_digest(tier):
@@ -1024,6 +1044,9 @@ def _universe(tier):
 
 def exhaustive(tier, seed, shard, nshards, stats):
     pv = _pv()
+    if shard != 0:          # one global collision table: the whole universe is done by shard 0
+        stats.exhaustive = True
+        return
     from vp.core import case_hash
     table = {}
     n = 0
@@ -1433,10 +1456,20 @@ def selftest():
 SUBS = [
     Sub("exhaustive", check_pair, custom=exhaustive, workers_quick=1, workers_thorough=1, budget_quick=60,
         budget_thorough=600),
-    Sub("digest", check_pair, strategy=strat_digest, quick=1000, thorough=12000, workers_quick=4, workers_thorough=16),
+    Sub("digest", check_pair, strategy=strat_digest, quick=400, thorough=5000, workers_quick=4, workers_thorough=16),
     Sub("exclusion", check_pair, strategy=strat_exclusion, quick=400, thorough=4000, workers_quick=2, workers_thorough=8),
     Sub("presence", check_presence, strategy=strat_presence, quick=250, thorough=3000, workers_quick=2, workers_thorough=8),
     Sub("verify", check_verify, strategy=strat_verify, quick=120, thorough=2000, workers_quick=4, workers_thorough=16),
+]
+
+# Reproducers of collisions that remain after fixes/C18-1.patch and that no small safe patch removes
+# (see design.d/C18.md).  They are outside the generated domain; the lead may pin them with
+# Reg(name, "digest", case, expect="known", finding=<id>) once they are listed in known_findings.json.
+_H = "  hosts: h\n  vars:\n    insights_signature_exclude: /hosts\n"
+KNOWN_CANDIDATES = [
+    ("anchored-boolean-is-int", {"yaml_a": "- become: &b true\n" + _H, "yaml_b": "- become: 1\n" + _H}),
+    ("tagged-scalar-printed-raw", {"yaml_a": "- a: !unsafe \"'x'), ('b', 'y'\"\n" + _H, "yaml_b": "- a: x\n  b: y\n" + _H}),
+    ("tag-not-covered", {"yaml_a": "- a: !unsafe x\n" + _H, "yaml_b": "- a: !vault x\n" + _H}),
 ]
 
 _V = M((S(EXCL), S("/hosts")))
